@@ -11,6 +11,7 @@ package service
 //@ vars service.EndBlocker$3: requestContextID=github.com/tendermint/tendermint/libs/bytes.HexBytes#0 requestContext=github.com/irismod/service/types.RequestContext#0 providers=[]github.com/cosmos/cosmos-sdk/types.AccAddress#0 totalPrices=github.com/cosmos/cosmos-sdk/types.Coins#0 rawDenom=string#0 err=error#0 err=error#1 requestContext=github.com/irismod/service/types.RequestContext#1 batchState=github.com/irismod/service/types.BatchState#0 stateJSON=[]byte#0
 //@ vars service.EndBlocker: ctx=github.com/cosmos/cosmos-sdk/types.Context#0 k=github.com/irismod/service/keeper.Keeper#0 expiredRequestHandler=func#0 expiredRequestBatchHandler=func#1 providerRequests=map[string][]string#0 newRequestBatchHandler=func#2 provider=string#0 requests=[]string#0 requestsJSON=[]byte#0 str=[]string#1
 //@ props C06 C09 C01 C11 C10 C12 C20 C03
+//@ preserves [C16] both_pending_indexes_list_the_same_requests: idxInv(raw)
 //@ preserves [C16] no_orphan_request_or_response_record: recInv(raw)
 //@ preserves [C10] never_more_batches_than_the_largest_total: cadInv(raw, ghostMaxTot)
 //@ preserves [C12,C16,C08] open_batches_count_their_pending_requests: cntInv(raw)
@@ -77,6 +78,7 @@ package service
 //@ vars service.EndBlocker$1: requestID=github.com/tendermint/tendermint/libs/bytes.HexBytes#0 request=github.com/irismod/service/types.Request#0
 //@ vars service.EndBlocker: ctx=github.com/cosmos/cosmos-sdk/types.Context#0 k=github.com/irismod/service/keeper.Keeper#0 expiredRequestHandler=func#0 expiredRequestBatchHandler=func#1 providerRequests=map[string][]string#0 newRequestBatchHandler=func#2 provider=string#0 requests=[]string#0 requestsJSON=[]byte#0 str=[]string#1
 //@ props C02 C04 C08 C16 C03 C20
+//@ preserves [C16] both_pending_indexes_list_the_same_requests: idxInv(raw)
 //@ preserves [C01,C02,C16] pending_requests_stay_well_formed: actInv(raw)
 //@ modifies raw, bal, supply
 //@ preserves wf: WF(raw)
@@ -114,6 +116,7 @@ package service
 //@ vars (keeper.Keeper).IterateActiveRequests: k=github.com/irismod/service/keeper.Keeper#0 ctx=github.com/cosmos/cosmos-sdk/types.Context#0 requestContextID=github.com/tendermint/tendermint/libs/bytes.HexBytes#0 batchCounter=uint64#0 op=func#0 requestID=github.com/tendermint/tendermint/libs/bytes.HexBytes#1 request=github.com/irismod/service/types.Request#0 iterator=github.com/cosmos/cosmos-sdk/types.Iterator#0 requestID=github.com/gogo/protobuf/types.BytesValue#0 request=github.com/irismod/service/types.Request#1
 //@ vars service.EndBlocker: ctx=github.com/cosmos/cosmos-sdk/types.Context#0 k=github.com/irismod/service/keeper.Keeper#0 expiredRequestHandler=func#0 expiredRequestBatchHandler=func#1 providerRequests=map[string][]string#0 newRequestBatchHandler=func#2 provider=string#0 requests=[]string#0 requestsJSON=[]byte#0 str=[]string#1
 //@ props C16 C11 C10 C09 C12 C08 C02 C04 C20
+//@ preserves [C16] both_pending_indexes_list_the_same_requests: idxInv(raw)
 //@ preserves [C16] no_orphan_request_or_response_record: recInv(raw)
 //@ preserves [C10] never_more_batches_than_the_largest_total: cadInv(raw, ghostMaxTot)
 //@ preserves [C12,C16,C08] open_batches_count_their_pending_requests: cntInv(raw)
@@ -127,6 +130,7 @@ package service
 //@ loop IterateActiveRequests.0 invariant pos_in_range: 0 <= iterator_pos && iterator_pos <= itCount(iterator_snap, iterator_pfx)
 //@ loop IterateActiveRequests.0 invariant snapshot: iterator_snap == old(raw) && iterator_pfx == PActByCtx(requestContextID, batchCounter) && batchCounter == old(requestContext).BatchCounter && cblog == old(cblog)
 //@ loop IterateActiveRequests.0 invariant wf: WF(raw) && depInv(raw, bal)
+//@ loop IterateActiveRequests.0 invariant [C16] both_pending_indexes_list_the_same_requests: idxInv(raw)
 //@ loop IterateActiveRequests.0 invariant no_binding_created: forall s Str, p Bytes :: {raw[KBind(s, p)]} bindFound(raw, s, p) ==> bindFound(iterator_snap, s, p)
 //@ loop IterateActiveRequests.0 invariant [C01] escrow_exactly_backed: escInv(raw, bal) && earnNonneg(raw)
 //@ loop IterateActiveRequests.0 invariant [C05] no_ordinary_account_debited_so_far: forall a Bytes, d Str :: {bal[a][d]} ordinary(a) ==> bal[a][d] >= old(bal)[a][d]
@@ -165,6 +169,7 @@ package service
 //@ func handleMsgDefineService
 //@ vars service.handleMsgDefineService: ctx=github.com/cosmos/cosmos-sdk/types.Context#0 k=github.com/irismod/service/keeper.Keeper#0 msg=*github.com/irismod/service/types.MsgDefineService#0 err=error#0
 //@ props C05 C15 C20
+//@ preserves [C16] both_pending_indexes_list_the_same_requests: idxInv(raw)
 //@ preserves [C16] no_orphan_request_or_response_record: recInv(raw)
 //@ preserves [C01,C02] escrow_exactly_backed: escInv(raw, bal) && earnNonneg(raw) && wfEarned(raw)
 //@ preserves [C10] never_more_batches_than_the_largest_total: cadInv(raw, ghostMaxTot)
@@ -179,6 +184,7 @@ package service
 //@ func handleMsgBindService
 //@ vars service.handleMsgBindService: ctx=github.com/cosmos/cosmos-sdk/types.Context#0 k=github.com/irismod/service/keeper.Keeper#0 msg=*github.com/irismod/service/types.MsgBindService#0 found=bool#0 err=error#0
 //@ props C05 C03 C14 C15 C20
+//@ preserves [C16] both_pending_indexes_list_the_same_requests: idxInv(raw)
 //@ preserves [C16] no_orphan_request_or_response_record: recInv(raw)
 //@ preserves [C01,C02] escrow_exactly_backed: escInv(raw, bal) && earnNonneg(raw) && wfEarned(raw)
 //@ preserves [C10] never_more_batches_than_the_largest_total: cadInv(raw, ghostMaxTot)
@@ -190,7 +196,7 @@ package service
 //@ preserves wf: WF(raw)
 //@ preserves [C03] deposits_in_custody: depInv(raw, bal)
 //@ requires a3_signer_ordinary: ordinary(msg.Owner)
-//@ requires a2_validated: (forall d Str :: amt(msg.Deposit, d) >= 0)
+//@ requires a2_validated: (forall d Str :: amt(msg.Deposit, d) >= 0) && len(msg.Provider) > 0
 //@ ensures [C05] module_services_cannot_be_bound: err == NoErr ==> !moduleSvcFound(msg.ServiceName)
 //@ ensures [C05] provider_keeps_its_owner: err == NoErr ==> (ownerFound(old(raw), msg.Provider) ==> addrEq(msg.Owner, ownerOf(old(raw), msg.Provider)))
 //@ ensures [C05] only_the_signer_is_debited: forall a Bytes, d Str :: {bal[a][d]} a != msg.Owner ==> bal[a][d] >= old(bal)[a][d]
@@ -199,6 +205,7 @@ package service
 //@ func handleMsgUpdateServiceBinding
 //@ vars service.handleMsgUpdateServiceBinding: ctx=github.com/cosmos/cosmos-sdk/types.Context#0 k=github.com/irismod/service/keeper.Keeper#0 msg=*github.com/irismod/service/types.MsgUpdateServiceBinding#0 err=error#0
 //@ props C05 C03 C14 C20
+//@ preserves [C16] both_pending_indexes_list_the_same_requests: idxInv(raw)
 //@ preserves [C16] no_orphan_request_or_response_record: recInv(raw)
 //@ preserves [C01,C02] escrow_exactly_backed: escInv(raw, bal) && earnNonneg(raw) && wfEarned(raw)
 //@ preserves [C10] never_more_batches_than_the_largest_total: cadInv(raw, ghostMaxTot)
@@ -217,6 +224,7 @@ package service
 //@ func handleMsgSetWithdrawAddress
 //@ vars service.handleMsgSetWithdrawAddress: ctx=github.com/cosmos/cosmos-sdk/types.Context#0 k=github.com/irismod/service/keeper.Keeper#0 msg=*github.com/irismod/service/types.MsgSetWithdrawAddress#0
 //@ props C05 C13 C20
+//@ preserves [C16] both_pending_indexes_list_the_same_requests: idxInv(raw)
 //@ preserves [C16] no_orphan_request_or_response_record: recInv(raw)
 //@ preserves [C01,C02] escrow_exactly_backed: escInv(raw, bal) && earnNonneg(raw) && wfEarned(raw)
 //@ preserves [C10] never_more_batches_than_the_largest_total: cadInv(raw, ghostMaxTot)
@@ -231,6 +239,7 @@ package service
 //@ func handleMsgDisableServiceBinding
 //@ vars service.handleMsgDisableServiceBinding: ctx=github.com/cosmos/cosmos-sdk/types.Context#0 k=github.com/irismod/service/keeper.Keeper#0 msg=*github.com/irismod/service/types.MsgDisableServiceBinding#0 err=error#0
 //@ props C05 C03 C20
+//@ preserves [C16] both_pending_indexes_list_the_same_requests: idxInv(raw)
 //@ preserves [C16] no_orphan_request_or_response_record: recInv(raw)
 //@ preserves [C01,C02] escrow_exactly_backed: escInv(raw, bal) && earnNonneg(raw) && wfEarned(raw)
 //@ preserves [C10] never_more_batches_than_the_largest_total: cadInv(raw, ghostMaxTot)
@@ -247,6 +256,7 @@ package service
 //@ func handleMsgEnableServiceBinding
 //@ vars service.handleMsgEnableServiceBinding: ctx=github.com/cosmos/cosmos-sdk/types.Context#0 k=github.com/irismod/service/keeper.Keeper#0 msg=*github.com/irismod/service/types.MsgEnableServiceBinding#0 err=error#0
 //@ props C05 C03 C14 C20
+//@ preserves [C16] both_pending_indexes_list_the_same_requests: idxInv(raw)
 //@ preserves [C16] no_orphan_request_or_response_record: recInv(raw)
 //@ preserves [C01,C02] escrow_exactly_backed: escInv(raw, bal) && earnNonneg(raw) && wfEarned(raw)
 //@ preserves [C10] never_more_batches_than_the_largest_total: cadInv(raw, ghostMaxTot)
@@ -266,6 +276,7 @@ package service
 //@ func handleMsgRefundServiceDeposit
 //@ vars service.handleMsgRefundServiceDeposit: ctx=github.com/cosmos/cosmos-sdk/types.Context#0 k=github.com/irismod/service/keeper.Keeper#0 msg=*github.com/irismod/service/types.MsgRefundServiceDeposit#0 err=error#0
 //@ props C05 C03 C20
+//@ preserves [C16] both_pending_indexes_list_the_same_requests: idxInv(raw)
 //@ preserves [C16] no_orphan_request_or_response_record: recInv(raw)
 //@ preserves [C01,C02] escrow_exactly_backed: escInv(raw, bal) && earnNonneg(raw) && wfEarned(raw)
 //@ preserves [C10] never_more_batches_than_the_largest_total: cadInv(raw, ghostMaxTot)
@@ -284,6 +295,7 @@ package service
 //@ vars service.handleMsgPauseRequestContext: ctx=github.com/cosmos/cosmos-sdk/types.Context#0 k=github.com/irismod/service/keeper.Keeper#0 msg=*github.com/irismod/service/types.MsgPauseRequestContext#0 err=error#0 err=error#1
 //@ preserves [C01,C02,C16,C11] pending_requests_stay_well_formed: actInv(raw)
 //@ props C05 C09 C20
+//@ preserves [C16] both_pending_indexes_list_the_same_requests: idxInv(raw)
 //@ preserves [C16] no_orphan_request_or_response_record: recInv(raw)
 //@ preserves [C01,C02] escrow_exactly_backed: escInv(raw, bal) && earnNonneg(raw) && wfEarned(raw)
 //@ preserves [C10] never_more_batches_than_the_largest_total: cadInv(raw, ghostMaxTot)
@@ -301,6 +313,7 @@ package service
 //@ vars service.handleMsgStartRequestContext: ctx=github.com/cosmos/cosmos-sdk/types.Context#0 k=github.com/irismod/service/keeper.Keeper#0 msg=*github.com/irismod/service/types.MsgStartRequestContext#0 err=error#0 err=error#1
 //@ preserves [C01,C02,C16,C11] pending_requests_stay_well_formed: actInv(raw)
 //@ props C05 C09 C20
+//@ preserves [C16] both_pending_indexes_list_the_same_requests: idxInv(raw)
 //@ preserves [C16] no_orphan_request_or_response_record: recInv(raw)
 //@ preserves [C01,C02] escrow_exactly_backed: escInv(raw, bal) && earnNonneg(raw) && wfEarned(raw)
 //@ preserves [C10] never_more_batches_than_the_largest_total: cadInv(raw, ghostMaxTot)
@@ -317,6 +330,7 @@ package service
 //@ vars service.handleMsgKillRequestContext: ctx=github.com/cosmos/cosmos-sdk/types.Context#0 k=github.com/irismod/service/keeper.Keeper#0 msg=*github.com/irismod/service/types.MsgKillRequestContext#0 err=error#0 err=error#1
 //@ preserves [C01,C02,C16,C11] pending_requests_stay_well_formed: actInv(raw)
 //@ props C05 C09 C20
+//@ preserves [C16] both_pending_indexes_list_the_same_requests: idxInv(raw)
 //@ preserves [C16] no_orphan_request_or_response_record: recInv(raw)
 //@ preserves [C01,C02] escrow_exactly_backed: escInv(raw, bal) && earnNonneg(raw) && wfEarned(raw)
 //@ preserves [C10] never_more_batches_than_the_largest_total: cadInv(raw, ghostMaxTot)
@@ -334,6 +348,7 @@ package service
 //@ vars service.handleMsgUpdateRequestContext: ctx=github.com/cosmos/cosmos-sdk/types.Context#0 k=github.com/irismod/service/keeper.Keeper#0 msg=*github.com/irismod/service/types.MsgUpdateRequestContext#0 err=error#0 err=error#1
 //@ preserves [C01,C02,C16,C11] pending_requests_stay_well_formed: actInv(raw)
 //@ props C05 C09 C10 C20
+//@ preserves [C16] both_pending_indexes_list_the_same_requests: idxInv(raw)
 //@ preserves [C16] no_orphan_request_or_response_record: recInv(raw)
 //@ preserves [C01,C02] escrow_exactly_backed: escInv(raw, bal) && earnNonneg(raw) && wfEarned(raw)
 //@ requires [C10] never_more_batches_than_the_largest_total: cadInv(raw, ghostMaxTot)
@@ -354,6 +369,7 @@ package service
 //@ func handleMsgCallService
 //@ vars service.handleMsgCallService: ctx=github.com/cosmos/cosmos-sdk/types.Context#0 k=github.com/irismod/service/keeper.Keeper#0 msg=*github.com/irismod/service/types.MsgCallService#0 reqContextID=github.com/tendermint/tendermint/libs/bytes.HexBytes#0 err=error#0 moduleService=*github.com/irismod/service/types.ModuleService#0 found=bool#0 err=error#1
 //@ props C05 C10 C11 C09 C20 C16 C12
+//@ preserves [C16] both_pending_indexes_list_the_same_requests: idxInv(raw)
 //@ preserves [C16] no_orphan_request_or_response_record: recInv(raw)
 //@ preserves [C01,C02] escrow_exactly_backed: escInv(raw, bal) && earnNonneg(raw) && wfEarned(raw)
 //@ modifies raw, bal, supply, cblog
@@ -376,6 +392,7 @@ package service
 //@ func handleMsgRespondService
 //@ vars service.handleMsgRespondService: ctx=github.com/cosmos/cosmos-sdk/types.Context#0 k=github.com/irismod/service/keeper.Keeper#0 msg=*github.com/irismod/service/types.MsgRespondService#0 request=github.com/irismod/service/types.Request#0 err=error#0
 //@ props C05 C08 C02 C20
+//@ preserves [C16] both_pending_indexes_list_the_same_requests: idxInv(raw)
 //@ preserves [C16] no_orphan_request_or_response_record: recInv(raw)
 //@ preserves [C10] never_more_batches_than_the_largest_total: cadInv(raw, ghostMaxTot)
 //@ preserves [C11] no_event_in_the_past: futInv(raw, ctxHeight(ctx))
@@ -393,6 +410,7 @@ package service
 //@ func handleMsgWithdrawEarnedFees
 //@ vars service.handleMsgWithdrawEarnedFees: ctx=github.com/cosmos/cosmos-sdk/types.Context#0 k=github.com/irismod/service/keeper.Keeper#0 msg=*github.com/irismod/service/types.MsgWithdrawEarnedFees#0 err=error#0
 //@ props C05 C13 C20
+//@ preserves [C16] both_pending_indexes_list_the_same_requests: idxInv(raw)
 //@ preserves [C16] no_orphan_request_or_response_record: recInv(raw)
 //@ preserves [C01,C02] escrow_exactly_backed: escInv(raw, bal) && earnNonneg(raw) && wfEarned(raw)
 //@ preserves [C10] never_more_batches_than_the_largest_total: cadInv(raw, ghostMaxTot)
@@ -426,6 +444,7 @@ package service
 //@ vars (keeper.Keeper).IterateExpiredRequestBatch: k=github.com/irismod/service/keeper.Keeper#0 ctx=github.com/cosmos/cosmos-sdk/types.Context#0 expirationHeight=int64#0 op=func#0 requestContextID=github.com/tendermint/tendermint/libs/bytes.HexBytes#0 requestContext=github.com/irismod/service/types.RequestContext#0 store=github.com/cosmos/cosmos-sdk/types.KVStore#0 iterator=github.com/cosmos/cosmos-sdk/types.Iterator#0 requestContextID=github.com/gogo/protobuf/types.BytesValue#0 requestContext=github.com/irismod/service/types.RequestContext#1
 //@ vars (keeper.Keeper).IterateNewRequestBatch: k=github.com/irismod/service/keeper.Keeper#0 ctx=github.com/cosmos/cosmos-sdk/types.Context#0 requestBatchHeight=int64#0 op=func#0 requestContextID=github.com/tendermint/tendermint/libs/bytes.HexBytes#0 requestContext=github.com/irismod/service/types.RequestContext#0 store=github.com/cosmos/cosmos-sdk/types.KVStore#0 iterator=github.com/cosmos/cosmos-sdk/types.Iterator#0 requestContextID=github.com/gogo/protobuf/types.BytesValue#0 requestContext=github.com/irismod/service/types.RequestContext#1
 //@ props C11 C03 C16 C20 C10
+//@ preserves [C16] both_pending_indexes_list_the_same_requests: idxInv(raw)
 //@ preserves [C16] no_orphan_request_or_response_record: recInv(raw)
 //@ preserves [C10] never_more_batches_than_the_largest_total: cadInv(raw, ghostMaxTot)
 //@ preserves [C12,C16,C08] open_batches_count_their_pending_requests: cntInv(raw)
@@ -447,7 +466,7 @@ package service
 //@ loop 0 invariant events_only: true
 //@ loop IterateNewRequestBatch.0 invariant pos_in_range: 0 <= iterator_pos && iterator_pos <= itCount(iterator_snap, iterator_pfx)
 //@ loop IterateNewRequestBatch.0 invariant snapshot: iterator_snap == call_raw && iterator_pfx == PNewQ(ctxHeight(ctx)) && requestBatchHeight == ctxHeight(ctx)
-//@ loop IterateNewRequestBatch.0 invariant wf: WF(raw) && depInv(raw, bal) && actInv(raw) && schedInv(raw) && cntInv(raw) && recInv(raw)
+//@ loop IterateNewRequestBatch.0 invariant wf: WF(raw) && depInv(raw, bal) && actInv(raw) && schedInv(raw) && cntInv(raw) && recInv(raw) && idxInv(raw)
 //@ loop IterateNewRequestBatch.0 invariant [C11] no_event_in_the_past: futInv(raw, ctxHeight(ctx)) && cadInv(raw, ghostMaxTot)
 //@ loop IterateNewRequestBatch.0 invariant [C01] escrow_exactly_backed: escInv(raw, bal) && earnNonneg(raw) && pricesInBase(raw)
 //@ loop IterateNewRequestBatch.0 invariant [C11] visited_entries_consumed: forall id Bytes :: {raw[KNewQ(ctxHeight(ctx), id)]}
@@ -463,7 +482,7 @@ package service
 //@      (iterator_snap[KNewQ(ctxHeight(ctx), id)] != bnil && itIdx(iterator_snap, iterator_pfx, KNewQ(ctxHeight(ctx), id)) >= iterator_pos) ==>
 //@      raw[KCtx(id)] == iterator_snap[KCtx(id)]
 //@ loop IterateExpiredRequestBatch.0 invariant [C05] no_ordinary_account_debited_so_far: forall a Bytes, d Str :: {bal[a][d]} ordinary(a) ==> bal[a][d] >= old(bal)[a][d]
-//@ loop IterateExpiredRequestBatch.0 invariant queues_ok: recInv(raw) && schedInv(raw) && cntInv(raw) && futInv(raw, ctxHeight(ctx)) && cadInv(raw, ghostMaxTot)
+//@ loop IterateExpiredRequestBatch.0 invariant queues_ok: idxInv(raw) && recInv(raw) && schedInv(raw) && cntInv(raw) && futInv(raw, ctxHeight(ctx)) && cadInv(raw, ghostMaxTot)
 //@ loop IterateExpiredRequestBatch.0 invariant [C01] escrow_exactly_backed: escInv(raw, bal) && earnNonneg(raw) && pricesInBase(raw)
 //@ loop IterateExpiredRequestBatch.0 invariant unvisited_contexts_untouched: forall id Bytes :: {raw[KCtx(id)]} {raw[KExpH(id)]} {raw[KNewH(id)]}
 //@      (iterator_snap[KExpQ(ctxHeight(ctx), id)] != bnil && itIdx(iterator_snap, iterator_pfx, KExpQ(ctxHeight(ctx), id)) >= iterator_pos) ==>
